@@ -6,7 +6,7 @@ CONSTANTS
   MaxLines = 3
   MaxCols = 4
   MaxEdits = 3
-  MaxSize3 = 5
+  MaxSize3 = 4
   Texts3 = 2
 INVARIANTS InitWellFormed PartialCanonical OrderIndependent PendingApplicable Frame
 CHECK_DEADLOCK FALSE
